@@ -17,6 +17,7 @@ NOT_DECIDED = ('hull containment itself, clamped end-point interpolation and the
                '(C03, numerical) together with the structural facts above, and are not decided here.')
 TECHNIQUE = 'view/kind rule, comparison-orientation rule, cache typestate, index-range rule in polynomial normal form'
 DECIDES += (" BB2: evaluate_bounding_box on points of every order type of the coordinates returns the coordinate-wise extremes; LN2: length_curve is exactly the sum of the chords of consecutive sample points; CB2: a container's box follows its elements; BF3 (shared with C03): basis values are the Cox-de Boor polynomials, summing to one on every span.")
+DECIDES += (' OWN2: two new objects of a class share no list or dictionary, so a cached box or control point view belongs to one shape.')
 
 
 def site(fi, node=None):
